@@ -27,6 +27,16 @@ func init() {
 		Bounds:    "params (client operation, base path none / inbucket / \"my app\"); mailbox name from a menu of 9 names with URL-significant characters (symbolic selector); the escaping itself is checked for all ASCII names of <= 3 (6) bytes by VerifC14Escape",
 		Assumes:   []string{"the route table (method, path template, body requirement) is read from rest/routes.go and apiv1_controller.go, the way the routes are mounted under the base path (web.RoutePrefixer) from server/lifecycle.go; gorilla/mux matching itself is not executed under the engine: its documented segment rule stands in, applied to the decoded or the encoded path according to the useEncodedPath flag of the real web.Router object (built by package web's initialiser, executed from SSA); counterexamples are replayed against the real gorilla/mux router with the real route table", "gorilla/mux SetURLVars/Vars (request context) are modelled as a variable holding the vars of the request in flight"},
 	}, Harness{
+		Prop: "C14", Pkg: "rest/client", Func: "VerifC14ClientSource",
+		ExtraPkgs: []string{"rest", "server/web"},
+		InitAbs:   []string{"vendor/golang.org/x/net/http/httpguts"},
+		Quick:     grid(rng(0, 1)),
+		Thorough:  grid(rng(0, 1)),
+		Unwind:    80,
+		Desc:      "the response side of the client's GetMessageSource: the buffer handed to the caller holds exactly the body of the server's 200 answer",
+		Bounds:    "param (mode): 0 = body of symbolic length 1 .. 16 MiB, content not inspected; 1 = 6 arbitrary bytes",
+		Assumes:   []string{"the transport is a capturing stub that answers 200 with the given body; the JSON-decoding client methods are not covered (encoding/json is a model)"},
+	}, Harness{
 		Prop: "C14", Pkg: "rest/client", Func: "VerifC14Escape",
 		Quick:    grid(rng(0, 3)),
 		Thorough: grid(rng(0, 6)),
